@@ -426,6 +426,8 @@ pub const STATUS_INVALID_ADDRESS: u16 = 0x8003;
 pub enum Fault {
     /// `write_bulk` fails; the command does not reach the device.
     SendErr(UsbErr),
+    /// `write_bulk` reports this error although the device received the command (and answers).
+    SendErrDelivered(UsbErr),
     /// the `nth` (0-based) `read_bulk` of this transaction fails; the packet that would have
     /// been delivered is lost.
     RecvErr { nth: u32, err: UsbErr },
@@ -539,6 +541,10 @@ pub struct DevState {
     /// set when the host polled one command more than `RUNAWAY_RECVS` times (an unbounded
     /// retry loop); the device then reports `NoDevice` to break the loop.
     pub runaway: bool,
+    /// set when the host started a bulk-in transfer with a timeout of 0 ms (= UNLIMITED for
+    /// libusb; rusb passes `as_millis() as c_uint`) while the device had nothing to deliver: a
+    /// real host would block forever.  The fake reports `NoDevice` so that the run continues.
+    pub host_blocked: bool,
     n_control: u32,
     n_clear_halt: u32,
     /// packets of EARLIER commands the host has not fetched yet: the bulk-in pipe is a FIFO,
@@ -680,7 +686,7 @@ impl DevState {
         let mut recv_errs = BTreeMap::new();
         for f in &faults {
             match f {
-                Fault::SendErr(_) => {}
+                Fault::SendErr(_) | Fault::SendErrDelivered(_) => {}
                 Fault::RecvErr { nth, err } => {
                     recv_errs.insert(*nth, *err);
                 }
@@ -793,6 +799,7 @@ impl FakeUsb {
                 host_errors: vec![],
                 claimed: BTreeSet::new(),
                 runaway: false,
+                host_blocked: false,
                 n_control: 0,
                 n_clear_halt: 0,
                 pipe: std::collections::VecDeque::new(),
@@ -870,11 +877,15 @@ impl VerifUsb for FakeUsb {
                 let _lost = st.next_packet();
             }
             Err(e)
-        } else if st.resp.late_final && st.next_is_final() {
+        } else if st.resp.late_final && st.next_is_final() && timeout.as_millis() != 0 {
             st.resp.late_final = false;
             Err(UsbErr::Timeout)
         } else {
             match st.next_packet() {
+                None if timeout.as_millis() == 0 => {
+                    st.host_blocked = true;
+                    Err(UsbErr::NoDevice)
+                }
                 None => Err(UsbErr::Timeout),
                 // a real bulk-in transfer that receives more than the buffer holds fails with
                 // LIBUSB_ERROR_OVERFLOW; it never reports more bytes than the buffer has.
@@ -906,14 +917,20 @@ impl VerifUsb for FakeUsb {
         let send_err = st.cfg.faults.get(&idx).and_then(|fs| {
             fs.iter().find_map(|f| if let Fault::SendErr(e) = f { Some(*e) } else { None })
         });
+        let delivered_err = st.cfg.faults.get(&idx).and_then(|fs| {
+            fs.iter().find_map(|f| if let Fault::SendErrDelivered(e) = f { Some(*e) } else { None })
+        });
         if st.log_wire {
-            st.wire.push(Wire::Send { data: buf.to_vec(), timeout_ms: dur_ms(timeout), err: send_err });
+            st.wire.push(Wire::Send { data: buf.to_vec(), timeout_ms: dur_ms(timeout), err: send_err.or(delivered_err) });
         }
         if let Some(e) = send_err {
             st.retire_responses();
             return Err(e.to_lib());
         }
         st.handle_command(buf);
+        if let Some(e) = delivered_err {
+            return Err(e.to_lib());
+        }
         Ok(buf.len())
     }
 
